@@ -541,6 +541,29 @@ func signatureBack(root string, env []string, overlay map[string][]byte, note *I
 			if found == 1 {
 				jobs = append(jobs, fj)
 			}
+			if found == 0 {
+				// a method whose receiver was dropped (it was unused): same name, same parameters and results
+				pre := dir + ":"
+				cnt := 0
+				var bk string
+				for k := range baselineFuncs {
+					if !strings.HasPrefix(k, pre) || presentKey(present, k) || !strings.HasSuffix(k, "."+name) {
+						continue
+					}
+					rest := k[len(pre):]
+					if rest == "."+name {
+						continue
+					}
+					_, bparams, _ := strings.Cut(baselineSpecs[k], "|")
+					if typesOf(bparams) == typesOf(cparams) && baselineSigs[k] == c.sig {
+						cnt++
+						bk = k
+					}
+				}
+				if cnt == 1 {
+					jobs = append(jobs, job{"reRecv", c, bk, 0})
+				}
+			}
 		} else {
 			// a method: was it a function with a parameter of the receiver's type?
 			bk := dir + ":." + name
@@ -888,6 +911,65 @@ func (in *inliner) reshape(kind, from, base, rel string, pos int) bool {
 			fx.s.call.Args = na
 			in.changed[fx.s.file] = true
 		}
+	case "reRecv":
+		brecv, _, _ := strings.Cut(baselineSpecs[base], "|")
+		_, brt, _ := strings.Cut(brecv, " ")
+		if brt == "" {
+			return false
+		}
+		rte, err := parser.ParseExpr(brt)
+		if err != nil {
+			return false
+		}
+		zeroPos(rte)
+		tname := strings.TrimPrefix(brt, "*")
+		tn, _ := in.pk.Types.Scope().Lookup(tname).(*types.TypeName)
+		if tn == nil {
+			return false
+		}
+		for _, s := range sites {
+			if _, isId := s.call.Fun.(*ast.Ident); !isId {
+				return false
+			}
+		}
+		// receiver expression at a call site: the enclosing method's own receiver when it has the
+		// type, otherwise the zero value (the put-back receiver is blank, so it is never read)
+		recvFor := func(call *ast.CallExpr, file *ast.File) ast.Expr {
+			var found ast.Expr
+			for _, d := range file.Decls {
+				fd, ok := d.(*ast.FuncDecl)
+				if !ok || fd.Body == nil || call.Pos() < fd.Body.Pos() || call.Pos() > fd.Body.End() {
+					continue
+				}
+				if fd.Recv != nil && len(fd.Recv.List) == 1 && len(fd.Recv.List[0].Names) == 1 && fd.Recv.List[0].Names[0].Name != "_" {
+					if nodeText(fd.Recv.List[0].Type) == brt {
+						found = ast.NewIdent(fd.Recv.List[0].Names[0].Name)
+					}
+				}
+			}
+			if found != nil {
+				return found
+			}
+			var e ast.Expr
+			if strings.HasPrefix(brt, "*") {
+				e, _ = parser.ParseExpr("(" + brt + ")(nil)")
+			} else {
+				e, _ = parser.ParseExpr(brt + "{}")
+			}
+			if e != nil {
+				zeroPos(e)
+			}
+			return e
+		}
+		for _, s := range sites {
+			rx := recvFor(s.call, s.file)
+			if rx == nil {
+				return false
+			}
+			s.call.Fun = &ast.SelectorExpr{X: rx, Sel: ast.NewIdent(decl.Name.Name)}
+			in.changed[s.file] = true
+		}
+		decl.Recv = &ast.FieldList{List: []*ast.Field{{Names: []*ast.Ident{ast.NewIdent("_")}, Type: rte}}}
 	case "unfold":
 		if pos >= len(fields) || len(fields[pos].Names) != 1 {
 			return false
